@@ -1251,6 +1251,9 @@ class GrammarBuilder:
         if mangle is not None:
             params = tuple(mangle(p) for p in params)
             name = mangle(name)
+            if not is_term and opts.template_source is not None:
+                # instances of an imported template are labelled like the template itself
+                opts.template_source = name
 
         exp = _mangle_definition_tree(exp, mangle)
         return name, is_term, exp, params, opts
